@@ -32,7 +32,9 @@ EXTENDS Rat, Naturals, FiniteSets, TLC, Json
 CONSTANTS MaxR, MaxC,      \* largest shape of A
           \* Shapes with fewer than 9 cells are enumerated completely.  For shapes with 9 resp. 12 cells:
           SupMod9, SupMod12, SupRem,   \* supports S with SupHash(S) % SupMod = SupRem % SupMod   (1 = all)
-          CrossMod9, CrossMod12        \* under-declared pattern together with wrong values: every CrossMod-th
+          CrossMod9, CrossMod12,       \* under-declared pattern together with wrong values: every CrossMod-th
+          \* one stored scenario for INIT InitReplay (./check C13 --replay); unused by INIT Init
+          RpR, RpC, RpKind, RpAn, RpPc, RpS, RpD     \* RpS / RpD: Bits() of the support / of the removed cells
 
 \* value table of A (entry used where the support has a cell); equal magnitudes on purpose (ties)
 V == << <<1, -2, 3, 2>>, <<-3, 2, 1, -2>>, <<2, 3, -1, 3>> >>
@@ -175,6 +177,16 @@ ChoosePattern ==
           /\ scen' = Mk(scen.R, scen.C, scen.kind, scen.an, scen.S, pat)
     /\ out' = Expected(scen')
 Next == ChooseSupport \/ ChoosePattern
+
+FromBits(nC, n) == {x \in Cells(3, nC) : (n \div Pow2((x[1] - 1) * nC + x[2] - 1)) % 2 = 1}
+InitReplay ==
+    LET S == FromBits(RpC, RpS)
+        D == FromBits(RpC, RpD)
+        P == CASE RpPc = "full" -> Cells(RpR, RpC) [] RpPc = "exact" -> S [] RpPc = "under" -> S \ D
+               [] RpPc = "diag" -> DiagCells(RpR)
+    IN /\ stage = 2
+       /\ scen = Mk(RpR, RpC, RpKind, RpAn, S, [pc |-> RpPc, P |-> P, D |-> D])
+       /\ out = Expected(scen)
 
 \* --- laws -----------------------------------------------------------------------------------------
 IsZero(M, nR, nC) == \A x \in Cells(nR, nC) : At(M, x) = 0
